@@ -59,9 +59,18 @@ func isCluster(n string) bool {
 	return false
 }
 
-func ruleLockOrder(p *Prog, r *Report, rule string) {
-	r.Begin(rule, "E-PAIR", "the lock-order graph over all mutexes of the module (edge h→l when l is acquired, directly or through callees, while h may be held) is acyclic, apart from reviewed instance-ordered edges; no mutex is re-acquired while held", 20)
-	defer r.End()
+// lockCtx: shared by the lock-order and wait-under-lock rules.
+type lockCtx struct {
+	fns        []*ssa.Function
+	inScope    map[*ssa.Function]bool
+	follow     func(e *callgraph.Edge) bool
+	calleesOf  func(fn *ssa.Function, in ssa.Instruction) []*ssa.Function
+	outEdges   map[*ssa.Function][]*callgraph.Edge
+	nAmbiguous map[ssa.Instruction]bool
+	mayAcq     map[*ssa.Function]map[string]bool
+}
+
+func buildLockCtx(p *Prog) *lockCtx {
 	var pkgs []string
 	for rel := range p.ByRel {
 		pkgs = append(pkgs, rel)
@@ -79,21 +88,6 @@ func ruleLockOrder(p *Prog, r *Report, rule string) {
 		}
 	}
 	cg := p.CG()
-	// direct acquisitions
-	direct := map[*ssa.Function]map[string]bool{}
-	for _, fn := range fns {
-		instrs(fn, func(_ *ssa.BasicBlock, _ int, in ssa.Instruction) {
-			if _, isDefer := in.(*ssa.Defer); isDefer {
-				// a deferred Lock is still an acquisition of this function
-			}
-			if id, d, ok := mutexOp(in); ok && d > 0 {
-				if direct[fn] == nil {
-					direct[fn] = map[string]bool{}
-				}
-				direct[fn][id] = true
-			}
-		})
-	}
 	// Which call edges are followed. Static calls and calls of function values always; interface
 	// method calls only when the resolved graph gives a single in-scope implementation, or the
 	// interface is one of the reviewed ones whose implementations are all real alternatives
@@ -143,16 +137,6 @@ func ruleLockOrder(p *Prog, r *Report, rule string) {
 		}
 		return out
 	}
-	// may-acquire fixed point; next[fn][lock] = callee through which it is reached
-	may := map[*ssa.Function]map[string]bool{}
-	next := map[*ssa.Function]map[string]*ssa.Function{}
-	for _, fn := range fns {
-		may[fn] = map[string]bool{}
-		next[fn] = map[string]*ssa.Function{}
-		for l := range direct[fn] {
-			may[fn][l] = true
-		}
-	}
 	outEdges := map[*ssa.Function][]*callgraph.Edge{}
 	for _, fn := range fns {
 		if n := cg.Nodes[fn]; n != nil {
@@ -163,6 +147,65 @@ func ruleLockOrder(p *Prog, r *Report, rule string) {
 			}
 		}
 	}
+	// may-acquire (lock names collapsed by baseLock), transitively over followed edges
+	mayAcq := map[*ssa.Function]map[string]bool{}
+	for _, fn := range fns {
+		mayAcq[fn] = map[string]bool{}
+		instrs(fn, func(_ *ssa.BasicBlock, _ int, in ssa.Instruction) {
+			if id, d, ok := mutexOp(in); ok && d > 0 {
+				mayAcq[fn][baseLock(id)] = true
+			}
+		})
+	}
+	for changed := true; changed; {
+		changed = false
+		for _, fn := range fns {
+			for _, e := range outEdges[fn] {
+				for l := range mayAcq[e.Callee.Func] {
+					if !mayAcq[fn][l] {
+						mayAcq[fn][l] = true
+						changed = true
+					}
+				}
+			}
+		}
+	}
+	return &lockCtx{fns: fns, inScope: inScope, follow: followEdge, calleesOf: calleesOf, outEdges: outEdges, nAmbiguous: nAmbiguous, mayAcq: mayAcq}
+}
+
+func ruleLockOrder(p *Prog, r *Report, rule string) {
+	r.Begin(rule, "E-PAIR", "the lock-order graph over all mutexes of the module (edge h→l when l is acquired, directly or through callees, while h may be held) is acyclic, apart from reviewed instance-ordered edges; no mutex is re-acquired while held", 20)
+	defer r.End()
+	lc := buildLockCtx(p)
+	fns, calleesOf, followEdge, nAmbiguous, cg := lc.fns, lc.calleesOf, lc.follow, lc.nAmbiguous, p.CG()
+	_ = calleesOf
+	// direct acquisitions
+	direct := map[*ssa.Function]map[string]bool{}
+	for _, fn := range fns {
+		instrs(fn, func(_ *ssa.BasicBlock, _ int, in ssa.Instruction) {
+			if _, isDefer := in.(*ssa.Defer); isDefer {
+				// a deferred Lock is still an acquisition of this function
+			}
+			if id, d, ok := mutexOp(in); ok && d > 0 {
+				if direct[fn] == nil {
+					direct[fn] = map[string]bool{}
+				}
+				direct[fn][id] = true
+			}
+		})
+	}
+	// may-acquire fixed point; next[fn][lock] = callee through which it is reached
+	may := map[*ssa.Function]map[string]bool{}
+	next := map[*ssa.Function]map[string]*ssa.Function{}
+	for _, fn := range fns {
+		may[fn] = map[string]bool{}
+		next[fn] = map[string]*ssa.Function{}
+		for l := range direct[fn] {
+			may[fn][l] = true
+		}
+	}
+	outEdges := lc.outEdges
+	_, _ = cg, followEdge
 	for changed := true; changed; {
 		changed = false
 		for _, fn := range fns {
